@@ -58,10 +58,8 @@ func (m *Params) ParamSetPairs() paramtypes.ParamSetPairs {
 }
 
 func (m *Params) validate() error {
-	if m.EnableVesting {
-		return validatePerBlockReward(m.PerBlockReward)
-	}
-	return nil
+	// the reward is stored through the parameter validators even while vesting is disabled
+	return validatePerBlockReward(m.PerBlockReward)
 }
 
 func DefaultParams() Params {
